@@ -85,11 +85,30 @@ func iterContainsSig(sig *types.Signature) (int, bool) {
 	return idx, idx >= 0
 }
 
+// iterHelper: an unexported method with the IterContains shape on a type that
+// has IterContains (a piece of it moved out by a refactoring): it belongs to
+// the family, is analysed like IterContains and may be delegated to.
+func iterHelper(f *types.Func) bool {
+	if f == nil || f.Exported() {
+		return false
+	}
+	sig, _ := f.Type().(*types.Signature)
+	if sig == nil || sig.Recv() == nil {
+		return false
+	}
+	if _, ok := iterContainsSig(sig); !ok {
+		return false
+	}
+	obj, _, _ := types.LookupFieldOrMethod(sig.Recv().Type(), true, f.Pkg(), "IterContains")
+	_, isF := obj.(*types.Func)
+	return isF
+}
+
 var iterFamily = cbFamily{
 	prefix: "A3",
 	match: func(p *packages.Package, fd *ast.FuncDecl) *types.Var {
 		obj, _ := p.TypesInfo.Defs[fd.Name].(*types.Func)
-		if obj == nil || obj.Name() != "IterContains" {
+		if obj == nil || (obj.Name() != "IterContains" && !iterHelper(obj)) {
 			return nil
 		}
 		sig := obj.Type().(*types.Signature)
@@ -104,6 +123,12 @@ var iterFamily = cbFamily{
 			return 0, false
 		}
 		return iterContainsSig(sig)
+	},
+	delegFunc: func(f *types.Func) (int, bool) {
+		if !iterHelper(f) {
+			return 0, false
+		}
+		return iterContainsSig(f.Type().(*types.Signature))
 	},
 }
 
